@@ -169,7 +169,7 @@ def run(ctx: Ctx, only=None):
     #     or the normalisation makes of them, only the library's error (or SyntaxError for invalid Python) may come out
     frags = ["a[0](b)", "f(a)(b)", "f(a)[0]", "{(lambda: 1)()}", "{a if b else c}", "f(x=[i for i in a])", "f({1:2}[a])", "{a[0](b)}", "f(g(a)(b))",
              "f(a).g(b)", "{a.b.c(d)}", "{-a}", "{not a}", "f(*a, **b)", "{[a, b][0]}", "f(a)(", "{a[}", "f(lambda: a)", "{(a, b)}", "f(a := b)",
-             "{a @ b}", "f('~ | +')", "{ {1, 2} }", "{{a}}", "{ {1: a}[1] }", "{ {a} | {b} }", "{ { }", "{ } }", "{ '}' }", "{ {'}': 1} }", "f({a: {b}})", "{{{a}}}", "{f'{a}'}", "{a[1:2]}", "{...}", "{a(b)(c)(d)}", "f(a)()", "{await a}", "{yield}", "{a = b}", "f(a=)", "{1 if}"]
+             "{a @ b}", "f('~ | +')", "log(`a\\d`)", "f(`a\\n`, b)", "{`x\\y` + 1}", "g(`q\\1`)", "{ x }", "{  a + b }", "{\ta}", "{ {1, 2} }", "{{a}}", "{ {1: a}[1] }", "{ {a} | {b} }", "{ { }", "{ } }", "{ '}' }", "{ {'}': 1} }", "f({a: {b}})", "{{{a}}}", "{f'{a}'}", "{a[1:2]}", "{...}", "{a(b)(c)(d)}", "f(a)()", "{await a}", "{yield}", "{a = b}", "f(a=)", "{1 if}"]
     shapes = ["{0}", "{0} ~ y", "y ~ {0}", "{0} + b", "b:{0}", "({0} + a)**2", "{0} ~ {0}", "{0} | b", "y ~ a | {0}", "{0} ~ .", "-{0}", "a %in% {0}", "{0} {0}"]
     inputs = [(sh.replace("{0}", fr), rng.random() < 0.7, (True, True, False), rng.choice([None, ["a", "b", "y"]])) for fr in frags for sh in shapes]
     _run_stream(ctx, "pyfrag", inputs)
